@@ -110,6 +110,14 @@ func runWorkload(t *testing.T, c wcfg, overlap *[len14]int64) string {
 		req.RemoteAddr = "127.0.0.1:999"
 		admin.ServeHTTP(httptest.NewRecorder(), req)
 	}
+	// client addresses: in half of the workloads every goroutine has its own four, in the other half all goroutines
+	// share four, so that one client's bucket is drained, refused and refilled by several goroutines at once
+	clientOf := func(g, k int) string {
+		if (c.Seed/2)%2 == 1 {
+			return fmt.Sprintf("10.3.0.%d", k%4)
+		}
+		return fmt.Sprintf("10.3.%d.%d", 1+g, k%4)
+	}
 	wd := lab.StartWatchdog(t.Name(), "concurrent-workloads", lab.NoProgress, func() any { return c })
 	defer wd.Stop()
 	var inflight [len14]int32
@@ -145,7 +153,7 @@ func runWorkload(t *testing.T, c wcfg, overlap *[len14]int64) string {
 						b.Expect(id, script(kind))
 					}
 					_, _ = lab.Do(l.Addr, &lab.RawRequest{Method: "GET", Target: "/w", Framing: "none", Header: []lab.KV{{K: "Host", V: "h"},
-						{K: "X-Verif-Case", V: id}, {K: "Accept-Encoding", V: "gzip"}, {K: "X-Forwarded-For", V: fmt.Sprintf("10.3.%d.%d", g, rng.Intn(4))}}}, 5*time.Second)
+						{K: "X-Verif-Case", V: id}, {K: "Accept-Encoding", V: "gzip"}, {K: "X-Forwarded-For", V: clientOf(g, rng.Intn(4))}}}, 5*time.Second)
 					l.ForgetAll(id)
 				case "add":
 					n := atomic.AddInt32(&extraSeq, 1)
@@ -224,7 +232,7 @@ func runWorkload(t *testing.T, c wcfg, overlap *[len14]int64) string {
 							b.Expect(id, script([]string{"req-good", "req-good", "req-5xx"}[(g+i)%3]))
 						}
 						out, err := lab.Do(l.Addr, &lab.RawRequest{Method: "GET", Target: "/after-quiet", Framing: "none", Header: []lab.KV{{K: "Host", V: "h"},
-							{K: "X-Verif-Case", V: id}, {K: "X-Forwarded-For", V: fmt.Sprintf("10.4.%d.%d", g, i)}}}, 10*time.Second)
+							{K: "X-Verif-Case", V: id}, {K: "X-Forwarded-For", V: clientOf(g, i)}}}, 10*time.Second)
 						l.ForgetAll(id)
 						// every backend answers at once (or refuses): a request that gets no response at all within 10 s is stuck inside Helios
 						if err != nil && (out == nil || out.Status == 0) && (strings.Contains(err.Error(), "timeout") || strings.Contains(err.Error(), "deadline")) {
